@@ -109,7 +109,7 @@ Inv_All ==
           /\ Of(wl, "text-unread") = {<<"text-unread", LabelOfTok(o.body, t)>> : t \in mt}
           /\ Of(W(st, oo, Lossy_WriterPureOnly(o, now)), "text-unread") = {}
           /\ Of(W(st, oo, Lossy_WriterPureOnly(o, now)), "text-lost") = Of(wl, "text-lost")
-          /\ \A t \in mt : LabelOfTok(o.body, t) \in MixConts \cup {"multiT", "tbl>t+drawing", "tbl>t+br+t", "tbl>fld+t"}
+          /\ \A t \in mt : LabelOfTok(o.body, t) # "plain"
     \* LOOK-ALIKE RELATIONSHIP TYPES: a reader that takes stylesWithEffects for the styles relationship
     /\ LET wk == W(st, oo, Lossy_StylesLookalike(now))
            fx == {r \in o.rels : r.src = DocRels /\ r.k = "stylesWithEffects"}
